@@ -307,6 +307,14 @@ def _main(prop, tier, seed, t0):
     for v in violations:
         if v["kind"] in ("obligation", "native") and "replay_payload" not in v:
             payload = {"property": prop, "contract": v["qual"], "case": v["case"], "obligation": v["oid"], "assignment": v["assignment"], "verifier_output": v["solver"], "modules": cfg["modules"]}
+            try:
+                from pyvc import contracts as _C
+
+                _case = [c for c in _C.CONTRACTS[v["qual"]].cases if c.name == v["case"]][0]
+                if getattr(_case, "custom_replay", None):
+                    payload["custom"] = _case.custom_replay  # e.g. compile a tiny design with the real compiler
+            except Exception:
+                pass
             repro = RP.try_reproduce(payload, search=True, seed=seed)
             payload["reproduced"] = repro["reproduced"]
             payload["assignment"] = repro.get("assignment", payload["assignment"])
@@ -317,6 +325,8 @@ def _main(prop, tier, seed, t0):
         k = known_match(known, prop, v)
         if k is not None:
             known_lines.append(f"KNOWN-FINDING: property={prop} {k['what']}")
+            if v["kind"] in ("obligation", "custom"):
+                n_obl -= 1  # reported as a known finding, not counted among the obligations of this run
             continue
         path = write_replay(prop, v["oid"], v["replay_payload"])
         tail = "" if v.get("reproduced") else " no-failing-input-found"
